@@ -20,6 +20,8 @@ const MANY_FIELDS: [(&str, &str); 40] = [
     ("X-Info-32", "g"), ("X-Info-33", "h"), ("X-Info-34", "i"), ("X-Info-35", "j"), ("X-Info-36", "k"), ("X-Info-37", "l"), ("X-Info-38", "m"), ("X-Info-39", "n"),
 ];
 
+static UNWRITABLE: std::sync::Mutex<Vec<(String, String)>> = std::sync::Mutex::new(Vec::new());
+
 fn quick_requests() -> Vec<ReqSpec> {
     vec![
         req("GET", "1.1", ReqFraming::Default, 0, false, false, false),
@@ -41,6 +43,13 @@ fn quick_requests() -> Vec<ReqSpec> {
         req("GET", "1.1", ReqFraming::Default, 0, true, false, false),
         // body-less method converted with send-body-despite-method, default (chunked) framing
         req("DELETE", "1.1", ReqFraming::Default, 3, false, false, true),
+        // repeated header names in the original request (one map entry, several lines on the wire)
+        {
+            let mut r = req("GET", "1.1", ReqFraming::Default, 0, false, false, false);
+            r.cfg = r.cfg.orig("accept", "text/html").orig("accept", "application/json").orig("accept", "*/*;q=0.1").orig("x-last", "1");
+            r.label.push_str(" repeated-original-names");
+            r
+        },
     ]
 }
 
@@ -174,7 +183,13 @@ pub fn build(tier: Tier) -> Vec<Arc<ExchCfg>> {
                             c.menu = menu;
                             out.push(Arc::new(c));
                         }
-                        Err(e) => panic!("harness: request menu contains an unwritable request {}: {}", r.label, e),
+                        // every request of the menu is valid (C17): one that cannot be written is a finding
+                        Err(e) => {
+                            let mut u = UNWRITABLE.lock().unwrap();
+                            if !u.iter().any(|(l, _)| *l == r.label) {
+                                u.push((r.label.clone(), e));
+                            }
+                        }
                     }
                 }
             }
@@ -262,10 +277,18 @@ pub fn run(tier: Tier) -> Report {
     let fs = rep.extra.get("final_states").and_then(|v| v.as_u64()).unwrap_or(0);
     rep.guard("final states reached", fs > 0);
     interleaved_pairs(&mut rep);
+    for (i, (label, e)) in std::mem::take(&mut *UNWRITABLE.lock().unwrap()).into_iter().enumerate() {
+        rep.violation(crate::engine::Violation { key: "C01:head-write:request-unwritable".into(), ord: i as u64, what: format!("the head of a valid request cannot be written with large buffers: {} [{}]", e, label), replay: serde_json::json!({"kind": "unwritable"}) });
+    }
     rep
 }
 
 pub fn replay(v: &Value) -> Result<Option<String>, String> {
+    if v["kind"].as_str() == Some("unwritable") {
+        let tier = if v["tier"].as_str() == Some("thorough") { Tier::Thorough } else { Tier::Quick };
+        let _ = build(tier);
+        return Ok(std::mem::take(&mut *UNWRITABLE.lock().unwrap()).into_iter().next().map(|(l, e)| format!("[C01:head-write:request-unwritable] {} [{}]", e, l)));
+    }
     if v["kind"].as_str() == Some("interleaved") {
         let mut r = Report::new();
         interleaved_pairs(&mut r);
